@@ -56,7 +56,8 @@ def rt_events(quick):
 
 def time_strings():
     out = []
-    fr = ['', '.0', '.5', '.50', '.05', '.102', '.010', '.100', '.999', '.0001', '.123456', '.000000', ',5', ',050']
+    fr = ['', '.0', '.5', '.50', '.05', '.102', '.010', '.100', '.999', '.0001', '.123456', '.000000', ',5', ',050',
+          '.5000', '.1200', '.1230', '.12300', '.9990']
     for t in ('12', '1201', '120112', '000000', '235959'):
         for f in fr:
             for z in ('Z', '', '+0130', '-0500', '+01', '-14'):
@@ -131,7 +132,8 @@ def run(ctx):
                 frac = text.split('.')[1].rstrip('Z') if '.' in text else ''
                 f = {'clause': clause, 'op': 'enc', 'kind': e['kind'], 'codec': e['codec'], 'exc': e['exc'], 'st': e['st'],
                      'interior_zero': '0' in frac.rstrip('0'), 'has_fraction': bool(frac), 'year_lt_1000': text[:1] == '0',
-                     'long_fraction': len(frac) > 3, 'fraction_all_zero': bool(frac) and set(frac) == {'0'}}
+                     'long_fraction': len(frac) > 3, 'fraction_all_zero': bool(frac) and set(frac) == {'0'},
+                     'zeros_past_4th_digit': len(frac) > 4 and frac.endswith('0')}
                 what = '%s: %s.encode(%s(%r)) -> %s %r %s' % (clause, e['codec'], e['kind'], text, e['st'], bytes(e['out']).decode('latin-1'), e['exc'])
             ctx.report(what, f, {'prop': 'C20', 'event': e, 'clause': clause})
             bad += 1
